@@ -11,10 +11,14 @@ Definition script_stream (sc : script) : bytes := firstn (sc_cut sc) (wire (sc_r
 Definition peer_of_script (sc : script) : peer :=
   {| p_up := sc_mode sc =? 0; p_alpn := sc_alpn sc; p_host := sc_host sc; p_stream := script_stream sc |}.
 
+(* the handshake of the transport: crypto/tls over TCP, or crypto/tls inside QUIC *)
+Definition negotiate (quic : bool) : list bytes -> list bytes -> handshake :=
+  if quic then quic_negotiate else tls_negotiate.
+
 (* what the peer sees of a connection attempt *)
-Definition peer_handshake (sc : script) : bool * bytes :=
+Definition peer_handshake (quic : bool) (sc : script) : bool * bytes :=
   if sc_mode sc =? 0 then
-    match tls_negotiate [alpn_ntske] (sc_alpn sc) with
+    match negotiate quic [alpn_ntske] (sc_alpn sc) with
     | HsOk p => (true, p)
     | HsFail => (false, [])
     end
@@ -26,10 +30,10 @@ Definition rfc_label : bytes :=
 Definition peer_key (ex : exporter) (dir : Z) : bytes :=
   match ex rfc_label [0; 0; 0; 15; dir] 32 with Some k => k | None => [] end.
 
-Definition model_fetch (ex : exporter) (st : kdata) (sc : script) : kdata * fobs :=
-  let '(st', fo) := fetch_data ex st (peer_of_script sc) in
+Definition model_fetch (quic : bool) (ex : exporter) (st : kdata) (sc : script) : kdata * fobs :=
+  let '(st', fo) := fetch_data quic ex st (peer_of_script sc) in
   let conn := fo_exchanged fo && negb (sc_mode sc =? 1) in
-  let '(hs, proto) := if conn then peer_handshake sc else (false, []) in
+  let '(hs, proto) := if conn then peer_handshake quic sc else (false, []) in
   (st', {| o_conns := if conn then 1 else 0; o_hs_ok := hs; o_negotiated := proto;
            o_peer_c2s := if hs then peer_key ex 0 else []; o_peer_s2c := if hs then peer_key ex 1 else [];
            o_err := fo_err fo; o_data := fo_data fo |}).
@@ -39,9 +43,10 @@ Inductive mop := MFetch (sc : script) (ex : exporter) | MStore (c : bytes).
 
 Definition op_of (m : mop) : op := match m with MFetch sc _ => OpFetch sc | MStore c => OpStore c end.
 
-Fixpoint model_run (st : kdata) (ms : list mop) : list fobs :=
+(* quic = Fetcher.QUIC.Enabled, fixed for the life of the Fetcher *)
+Fixpoint model_run (quic : bool) (st : kdata) (ms : list mop) : list fobs :=
   match ms with
   | [] => []
-  | MStore c :: rest => model_run (store_cookie st c) rest
-  | MFetch sc ex :: rest => let '(st', o) := model_fetch ex st sc in o :: model_run st' rest
+  | MStore c :: rest => model_run quic (store_cookie st c) rest
+  | MFetch sc ex :: rest => let '(st', o) := model_fetch quic ex st sc in o :: model_run quic st' rest
   end.
